@@ -17,7 +17,7 @@ RULE = (
     "question first. Oracle (differential + invariant): the outcome of every operation (value repr or exception "
     "class) equals the outcome of the same operation asked first on a database freshly rebuilt from the accepted "
     "registrations; the full registry snapshot (all public getters, both conversion functions sampled) is identical "
-    "before and after every read-only or failing step. Plus an exhaustive sweep of the shipped table: every category x (first and last listed unit, first and last unit of its type that is not listed) through the object-level uses (GetValidUnits of Scalar / Array / FixedArray / FractionScalar - the returned list is then edited by the caller -, IsValid, CreateCopy, ObtainQuantity, CheckCategoryUnit, +), after each of which the valid and default units of every category of that quantity type and the type's units read as before. Registrations include a unit whose symbol differs only by case from one that was looked up with FindUnitCase. Conversions of an ndarray-backed Array are questions too: asked twice they give the same answer and the ndarray holds the same numbers afterwards. Quantities are asked for with and without a caption; a category is registered for the first time after lookups in it failed. The verdict of the validating constructor of derived quantities is a query as well, asked after the same factors went through each route that does not validate. Non-trivial = a query preceded by a failing lookup of the same "
+    "before and after every read-only or failing step. Plus an exhaustive sweep of the shipped table: every category x (first and last listed unit, first and last unit of its type that is not listed) through the object-level uses (GetValidUnits of Scalar / Array / FixedArray / FractionScalar - the returned list is then edited by the caller -, IsValid, CreateCopy, ObtainQuantity, CheckCategoryUnit, +), after each of which the valid and default units of every category of that quantity type and the type's units read as before. Registrations include a unit whose symbol differs only by case from one that was looked up with FindUnitCase. Conversions of an ndarray-backed Array are questions too: asked twice they give the same answer and the ndarray holds the same numbers afterwards. Quantities are asked for with and without a caption; a category is registered for the first time after lookups in it failed. The verdict of the validating constructor of derived quantities is a query as well, asked after the same factors went through each route that does not validate. The scenario question - changing registration - same question is also enumerated without chance: 3 focus categories x 4 units x 8 registrations, each with the complete list of questions. Non-trivial = a query preceded by a failing lookup of the same "
     "key, by an object-level GetValidUnits, or by a later registration; key = (database kind, query kind, preceding event kind, category/unit asked)."
 )
 ASSUMPTIONS = ["quantities and value objects obtained before a registration keep what they captured (documented design); only fresh queries are compared"]
@@ -449,6 +449,34 @@ def seq_strategy(base_kind, max_len):
     return seq()
 
 
+def fixed_scenarios():
+    """The scenario of seq_strategy without chance: for every focus category, unit and changing registration the
+    complete list of questions, before and after the change (the random histories draw subsets of these; whether a
+    particular triple is drawn within the tier's examples is luck)."""
+    prefix = [["base", "L", "metre", "m"], ["base", "T", "second", "s"], ["cat", "L", {"quantity_type": "L"}], ["cat", "depth", {"quantity_type": "L"}], ["unit", "L", "kilometre", "km", "@k1", "@k2", None]]
+    for c0 in ("L", "depth", "x"):
+        for u0 in ("cm", "km", "lbmol", "mm"):
+            changes = [
+                ["unit", "L", "late unit", u0, "%f*100.0", "%f/100.0", None],
+                ["cat", c0, {"quantity_type": "T", "override": True}],
+                ["cat", c0, {"quantity_type": "L", "override": True, "valid_units": ["m"], "default_unit": "m", "min_value": 0.0, "max_value": 2.0}],
+                ["cat", c0, {"quantity_type": "L", "override": True, "default_unit": "km"}],
+                ["cat", c0, {"quantity_type": "L"} if c0 == "x" else {"quantity_type": "L", "override": True}],
+                ["cat", c0, {"from_category": "L", "override": True, "min_value": 2.0, "default_value": 3.0}],
+                ["unit", "L", "case twin", "Km", "%f*7.0", "%f/7.0", None],
+                ["unit", "L", "case twin", u0.capitalize(), "%f*7.0", "%f/7.0", None],
+            ]
+            ask = [["query", [k, c0, u]] for k in ("CheckCategoryUnit", "ObtainQuantity", "Scalar", "ScalarGetValidUnits", "ArrayGetValidUnits", "FindUnitCase") for u in ("m", u0)]
+            ask += [["query", [k, c0, "m", u0]] for k in ("Convert", "GetValue", "CreateCopy", "Add", "Multiply")]
+            ask += [["query", ["ObtainQuantityCaption", c0, "m", cap]] for cap in ("", "cap")]
+            ask += [["query", [k, u]] for k in ("ScalarUnitOnly", "ObtainQuantityUnitOnly", "GetDefaultCategory") for u in ("m", "km", u0)]
+            ask += [["query", [k, c0, "m", "km", e]] for k in ("AddPow", "MulPow", "DivPow", "MulRecipPow") for e in (2, 3)]
+            ask += [["query", [k, c]] for k in ("GetUnits", "GetUnitNames", "GetValidUnits", "GetDefaultUnit", "GetDefaultValue", "GetCategoryInfo", "ScalarCategoryOnly") for c in (c0, "L")]
+            ask += [["query", ["IsValid", c0, "m", x]] for x in (1.0, 5.0)] + [["query", ["CheckValueForCategory", c0, "m", 5.0]]]
+            for change in changes:
+                yield [["reg", copy.deepcopy(r)] for r in prefix] + copy.deepcopy(ask) + [["reg", copy.deepcopy(change)]] + copy.deepcopy(ask)
+
+
 def run_case(ctx, base_kind, ops):
     Machine(ctx, base_kind, {"base": base_kind, "ops": ops}).run(ops)
 
@@ -523,6 +551,16 @@ def run_sweep(spec, ctx):
                 core.guarded(ctx, lambda k: sweep_case(ctx, db, k["category"], k["unit"], k["role"]), {"kind": "sweep", "category": c, "unit": u, "role": role})
                 n += 1
         ctx.exhaustive["shipped categories x (listed, not listed) units, object-level uses"] = "all %d pairs" % n
+    # every (focus category, unit, changing registration) with the complete list of questions before and after
+    n = 0
+    for ops in fixed_scenarios():
+        try:
+            core.guarded(ctx, lambda k: run_case(ctx, k["base"], k["ops"]), {"base": "small", "ops": ops})
+        except core.Viol as v:
+            ctx.record(v.key, v.case, v.msg)
+        ctx.cls("fixed_scenarios")
+        n += 1
+    ctx.exhaustive["question / changing registration / same question (3 categories x 4 units x 8 registrations, all questions)"] = "all %d histories" % n
     # the verdict of the validating constructor after the same factors went through a route that does not validate
     n = 0
     for base, specs in (
